@@ -30,10 +30,10 @@ theorem beta_1_eq (nf : ℝ) : QcdSrc.beta_1 nf = Coupling.beta1 nf := by
     Coupling.CA, Coupling.CF, Coupling.TF, Coupling.NC]
 
 theorem beta_2_eq (nf : ℝ) : QcdSrc.beta_2 nf = Coupling.beta2 nf := by
-  simp only [QcdSrc.beta_2, Coupling.beta2] <;> first | norm_num | (ring_nf; norm_num)
+  bridge_simp [QcdSrc.beta_2, Coupling.beta2]
 
 theorem beta_3_eq (nf : ℝ) : QcdSrc.beta_3 nf = Coupling.beta3 nf := by
-  simp only [QcdSrc.beta_3, Coupling.beta3] <;> first | norm_num | (ring_nf; norm_num)
+  bridge_simp [QcdSrc.beta_3, Coupling.beta3]
 
 theorem fbeta1_eq (a nf : ℝ) : QcdSrc.fbeta1 a nf = Coupling.fbeta1 a nf := by
   bridge_simp [QcdSrc.fbeta1, Coupling.fbeta1, beta_0_eq, beta_1_eq]
